@@ -24,8 +24,8 @@ ANCHOR_FILES = ["src/ropt/optimization/_optimizer.py", "src/ropt/ensemble_evalua
 RULE = ("case = (mode, V, mask, method/script, options); non-trivial if the mask fixes at least one variable and at least one evaluator row was checked; distinct key = case; "
         "monitor_counters: rows/entries checked, gradient entries checked, nested hand-offs")
 ASSUMPTIONS = ["initial values inside the bounds", "nested cases use no variable transform (domain convention of the hand-off is user code)"]
-REQUIRED = {"quick": {"evaluator_rows_checked": 20000, "fixed_entries_checked": 30000, "gradient_fixed_entries_checked": 2000, "result_vectors_checked": 5000, "algorithm_vectors_checked": 3000, "nested_handoffs": 150, "nested_rows_after_handoff": 1000, "explicit_start_vector": 100, "gradients_with_all_realizations_failed": 25, "__nontrivial__": 300},
-            "thorough": {"evaluator_rows_checked": 315045, "fixed_entries_checked": 523595, "gradient_fixed_entries_checked": 60000, "result_vectors_checked": 150000, "algorithm_vectors_checked": 100000, "nested_handoffs": 5000, "nested_rows_after_handoff": 28068, "explicit_start_vector": 903, "gradients_with_all_realizations_failed": 400, "__nontrivial__": 4000}}
+REQUIRED = {"quick": {"evaluator_rows_checked": 20000, "fixed_entries_checked": 30000, "gradient_fixed_entries_checked": 2000, "result_vectors_checked": 5000, "algorithm_vectors_checked": 3000, "nested_handoffs": 150, "nested_rows_after_handoff": 1000, "explicit_start_vector": 100, "gradients_with_all_realizations_failed": 25, "step_reruns_without_the_nested_plan": 40, "__nontrivial__": 300},
+            "thorough": {"evaluator_rows_checked": 315045, "fixed_entries_checked": 523595, "gradient_fixed_entries_checked": 60000, "result_vectors_checked": 150000, "algorithm_vectors_checked": 100000, "nested_handoffs": 5000, "nested_rows_after_handoff": 28068, "explicit_start_vector": 903, "gradients_with_all_realizations_failed": 400, "step_reruns_without_the_nested_plan": 800, "__nontrivial__": 4000}}
 BOUNDS = {"quick": {"Vmax": 4}, "thorough": {"Vmax": 5}}
 METHODS = ["scripted", "slsqp", "l-bfgs-b", "nelder-mead", "powell", "de", "de_vec"]
 
@@ -290,6 +290,9 @@ def _nested(case, obs):
     outer_step = outer_plan.add_step("optimizer")
 
     def inner_function(plan, variables):
+        if state.get("no_nested_run_expected"):
+            obs.violation("nested_plan_run_by_a_step_started_without_it", variables=np.asarray(variables))
+            state["ok"] = False
         inner_plan.set(inner_tracker, "results", None)
         start = np.array(variables, dtype=float)
         # the outer's fixed entries in the vector handed to the inner run must be the current reference
@@ -325,6 +328,17 @@ def _nested(case, obs):
     ctx.add_observer(EventType.FINISHED_EVALUATION, on_results)
     mon.stack.append({"mask": mask, "ref": outer_ref, "name": "outer"})
     outer_plan.run_step(outer_step, config=ens.make_config_dict(spec), nested_optimization=inner_plan)
+    # the same step object run again, now without a nested plan: nobody owns the masked-out variables any more, they keep
+    # the values this run starts from
+    start2 = np.array(spec["x0"]) + rng.uniform(-0.03, 0.03, size=V)
+    if spec.get("lb") is not None:
+        start2 = np.clip(start2, np.asarray(spec["lb"]) + 1e-6, np.asarray(spec["ub"]) - 1e-6)
+    mon.stack[:] = [{"mask": mask, "ref": start2.copy(), "name": "outer, second run without nested plan"}]
+    calls_before = len(ev.calls)
+    state["no_nested_run_expected"] = True
+    outer_plan.run_step(outer_step, config=ens.make_config_dict(spec), variables=start2)
+    obs.count("step_reruns_without_the_nested_plan")
+    obs.count("rows_of_reruns_without_the_nested_plan", sum(int(c.variables.shape[0]) for c in ev.calls[calls_before:]))
     if state["handoffs"]:
         obs.nontrivial("nested", case["i"])
     obs.feature("nested.speculative" if spec["optimizer"]["speculative"] else "nested.non_speculative")
